@@ -458,19 +458,38 @@ def run_device(case):
         ds.append(_safe(lambda: _cli("diff", syn, fo, fn)))
         rs.append(_safe(lambda: _cli("rollback", syn, fo, fn)))
         selfd = _safe(lambda: Diff(list(old), list(old), syntax=syn).get_diff())
-    return {"diffs": ds, "rollbacks": rs, "self": selfd}
+        # the same lines with a common base indent, as a list and as a string, denote the same config
+        io, inn = [" " + l for l in old], [" " + l for l in new]
+        ind = []
+        if len(io) > 1 and len(inn) > 1:
+            ind = [_safe(lambda: (Diff(list(io), list(inn), syntax=syn).get_diff(), Diff(list(io), list(inn), syntax=syn).get_rollback())),
+                   _safe(lambda: (Diff("\n".join(io), "\n".join(inn), syntax=syn).get_diff(), Diff("\n".join(io), "\n".join(inn), syntax=syn).get_rollback()))]
+        # comment lines are not configuration: adding them changes nothing, for every syntax
+        wc = []
+        has_banner = any("banner" in l for l in old)       # comment lines inside a banner body are banner text
+        for k, l in enumerate(old):
+            if k % 3 == 0:
+                wc.append("!" if not l[:1].isspace() else " !")
+            wc.append(l)
+        wc.append("!")
+        cmt = [] if has_banner else [_safe(lambda: Diff(list(wc), list(old), syntax=syn).get_diff()), _safe(lambda: Diff(list(wc), list(old), syntax=syn).get_rollback()),
+                                     _safe(lambda: Diff(list(old), list(wc), syntax=syn).get_diff())]
+    return {"diffs": ds, "rollbacks": rs, "self": selfd, "ind": ind, "cmt": cmt}
 
 
 def lit_device(c, o):
     # the equalities are decided by the driver (outputs of the real code compared with each other); Coq only records the verdicts
     same = lambda xs: all(x == xs[0] for x in xs)
-    return "(%s, %s, %s)" % (common.blit(same(o["diffs"])), common.blit(same(o["rollbacks"])), common.blit(o["self"] == []))
+    ind_ok = (not o.get("ind")) or o["ind"][0] == o["ind"][1]
+    cmt_ok = all(x == [] for x in o.get("cmt", []))
+    return "(%s, %s, %s)" % (common.blit(same(o["diffs"]) and ind_ok), common.blit(same(o["rollbacks"])), common.blit(o["self"] == [] and cmt_ok))
 
 
 def describe_device(c, o):
     return {"old": c["old"], "new": c["new"], "syntax": c["syntax"],
             "diff_variants(list,tuple,str,file,[None],mirror-of-mirror,CLI)": o["diffs"],
-            "rollback_variants(list,tuple,str,file,[None],diff(new,old),CLI)": o["rollbacks"], "self_diff": o["self"]}
+            "rollback_variants(list,tuple,str,file,[None],diff(new,old),CLI)": o["rollbacks"], "self_diff": o["self"],
+            "base_indented(list vs str)": o.get("ind"), "comment_only_change(diff,rollback,reverse diff)": o.get("cmt")}
 
 
 def nontrivial_device(c, o):
